@@ -25,14 +25,15 @@ Reading the statements.
 COVERED (all ten components, every point of the stated domain)
   EdS, LCDM (t > 0); Conformally_flat (everywhere); Schwarzschild_isotropic (vacuum; r ≠ 0, 2r ≠ M) and
   its closed-form Kretschmann scalar; Harvey_Tsoubelis (vacuum, t > 0); Collins_Stewart (t > 0);
-  Rosquist_Jantzen (t > 0; the module constant k ≠ 0 is proven); Non_diagonal (t > 0, (A t)² ≠ 2):
-  the equations hold exactly with the pressure coefficient 1/12, and are FALSE as written with the
-  module's rounded decimal 0.0833333 (`einstein_Non_diagonal_as_written_is_false`).
+  Rosquist_Jantzen (t > 0; the module constant k ≠ 0 is proven); Non_diagonal (t > 0, (A t)² ≠ 2; its
+  pressure coefficient is `1/12` since /repo commit 7527532 — with the earlier rounded decimal 0.0833333
+  the exact statement was false and was proven false here).
   Szekeres (t > 0, Z ≠ 0): the ten equations at a point are proven outright; that the jet consists of the
   derivatives of the module's metric is PARTIAL — under the explicit hypothesis (already used by
   `K_is_metric_rate_Szekeres_partial`) that `integrated_part` is an antiderivative of `part_to_integrate`.
+  Schwarzschild `null_ray_exp_out` = divergence of the unit outward normal of the coordinate spheres.
 NOT COVERED: the hypergeometric antiderivative itself (not in Mathlib; numerical sentinel);
-  null_ray_exp_out; ICPertFLRW constraints.
+  ICPertFLRW constraints.
 -/
 import AurelVerif.Lemmas.C17EinFLRW
 import AurelVerif.Lemmas.C17EinConfFlat
@@ -79,6 +80,19 @@ theorem einstein_Schwarzschild :
   ⟨Schwarzschild_jet, Schwarzschild_isJetField, fun t x y z hD =>
     ⟨Schwarzschild_einstein t x y z hD, Schwarzschild_ricci_flat t x y z hD, Schwarzschild_kretschmann t x y z hD⟩⟩
 
+/-- Schwarzschild_isotropic.null_ray_exp_out is the divergence `D_i s^i = γ^{-1/2} ∂_i(γ^{1/2} s^i)` of the unit outward
+normal `s^i = x^i/(r √γ_xx)` of the coordinate spheres in the module's conformally flat spatial metric
+(`γ^{1/2} = γ_xx^{3/2}`, hence `γ^{1/2} s^i = γ_xx x^i/r`); since `Kdown3 = 0` (`K_is_metric_rate_Schwarzschild`) this is the
+expansion of the outgoing null rays orthogonal to those spheres.  For all `(x,y,z) ≠ 0`. -/
+theorem null_expansion_Schwarzschild (t x y z : ℝ) (hq : x ^ 2 + y ^ 2 + z ^ 2 ≠ 0) :
+    ∃ vx vy vz : ℝ,
+      HasDerivAt (fun s => Schwarzschild_isotropic.gammadown3_num_00 t s y z * s / Real.sqrt (s ^ 2 + y ^ 2 + z ^ 2)) vx x ∧
+      HasDerivAt (fun s => Schwarzschild_isotropic.gammadown3_num_00 t x s z * s / Real.sqrt (x ^ 2 + s ^ 2 + z ^ 2)) vy y ∧
+      HasDerivAt (fun s => Schwarzschild_isotropic.gammadown3_num_00 t x y s * s / Real.sqrt (x ^ 2 + y ^ 2 + s ^ 2)) vz z ∧
+      (vx + vy + vz) / Schwarzschild_isotropic.gammadown3_num_00 t x y z ^ ((3:ℝ) / 2)
+        = Schwarzschild_isotropic.null_ray_exp_out t x y z :=
+  Schwarzschild_null_expansion t x y z hq
+
 /-- the Schwarzschild domain in plain words. -/
 theorem Schwarzschild_domain_iff (t x y z : ℝ) : Schwarzschild_domain t x y z ↔
     (x ^ 2 + y ^ 2 + z ^ 2 ≠ 0 ∧ 2 * Real.sqrt (x ^ 2 + y ^ 2 + z ^ 2) - Schwarzschild_isotropic.M ≠ 0) := Iff.rfl
@@ -104,32 +118,16 @@ theorem einstein_Rosquist_Jantzen :
       ∀ t x y z, 0 < t → (J t x y z).SolvesEinstein 0 Rosquist_Jantzen.kappa (Rosquist_Jantzen.Tdown4 t x y z) :=
   ⟨Rosquist_Jantzen_jet, Rosquist_Jantzen_isJetField, Rosquist_Jantzen_einstein⟩
 
-/-- Non_diagonal, what IS true: with `defect = (1/12 − 833333/10000000)·Y` (`Y/κ` = the module's pressure
-expression without its numerical coefficient, `Non_diagonal_defect`) every component satisfies
-`G_ab = κ T_ab + defect·(g_ab + u_a u_b)`; equivalently all ten equations hold exactly for the module's
-`Tdown4` with the pressure coefficient `0.0833333` replaced by `1/12`. Domain: `t > 0`, `(A t)² ≠ 2`. -/
-theorem einstein_Non_diagonal_exact_coefficient :
+/-- Non_diagonal: `G_ab = κ T_ab` with the module's `Tdown4` exactly as written, all ten components,
+for `t > 0` and `(A t)² ≠ 2` (where `det γ = tA((tA)² − 2) ≠ 0`). -/
+theorem einstein_Non_diagonal :
     ∃ J, IsJetField Non_diagonal_domain Non_diagonal.gdown4_num J ∧
       ∀ t x y z, Non_diagonal_domain t x y z →
-        (∀ a b, (J t x y z).Einstein a b = Non_diagonal.kappa * Non_diagonal.Tdown4 t x y z a b
-            + Non_diagonal_defect t z * (Non_diagonal.gdown4_num t x y z a b
-                + (if a = 0 then -1 else 0) * (if b = 0 then -1 else 0))) ∧
-        (J t x y z).SolvesEinstein 0 Non_diagonal.kappa
-          (fun a b => Non_diagonal.Tdown4 t x y z a b + Non_diagonal_defect t z / Non_diagonal.kappa *
-            (Non_diagonal.gdown4_num t x y z a b + (if a = 0 then -1 else 0) * (if b = 0 then -1 else 0))) :=
-  ⟨Non_diagonal_jet, Non_diagonal_isJetField, fun t x y z hD =>
-    ⟨Non_diagonal_einstein_defect t x y z hD, Non_diagonal_einstein_exact_coefficient t x y z hD⟩⟩
+        (J t x y z).SolvesEinstein 0 Non_diagonal.kappa (Non_diagonal.Tdown4 t x y z) :=
+  ⟨Non_diagonal_jet, Non_diagonal_isJetField, Non_diagonal_einstein⟩
 
 theorem Non_diagonal_domain_iff (t x y z : ℝ) : Non_diagonal_domain t x y z ↔
     (0 < t ∧ Non_diagonal.A_num z ^ 2 * t ^ 2 - 2 ≠ 0) := Iff.rfl
-
-/-- Non_diagonal, what is FALSE: the exact equations with the module's `Tdown4` as written
-(coefficient `0.0833333 ≠ 1/12`) fail, e.g. the `xy` component at `(t,x,y,z) = (1,0,0,5/2)`; the relative
-size of the violation is `4·10⁻⁷` (below the numerical sentinel's tolerance, which stays in place). -/
-theorem einstein_Non_diagonal_as_written_is_false :
-    (833333:ℝ) / 10000000 ≠ 1 / 12 ∧ Non_diagonal_domain 1 0 0 (5 / 2) ∧
-    ¬ (Non_diagonal_jet 1 0 0 (5 / 2)).SolvesEinstein 0 Non_diagonal.kappa (Non_diagonal.Tdown4 1 0 0 (5 / 2)) :=
-  ⟨Non_diagonal_coefficient_is_rounded, Non_diagonal_witness_domain, Non_diagonal_einstein_exact_is_false⟩
 
 /-- Szekeres, PARTIAL: under the hypothesis `hIP` that the module's local `integrated_part` (`Szekeres_IP`) is an
 antiderivative of its `part_to_integrate` (`Szekeres_PTI`) for `τ > 0` — the classical identity
